@@ -28,7 +28,10 @@ Ops == {"validate", "generate", "represent", "substitute"}
 LibVisitors == {"Validator", "Generator", "Representor", "Substitutor"}
 UserVisitors == {"UV", "UV2"}                \* class UV(SchemaVisitor); class UV2(UV)
 Visitors == LibVisitors \cup UserVisitors
-Holders == Visitors \cup {"Mixin"}           \* classes a method can be copied onto
+\* the formatter hierarchy has the same mechanism (AbstractFormatter.__init_subclass__) with a
+\* stricter filter: only names without a leading underscore are copied
+FormatterCls == {"Formatter"}
+Holders == Visitors \cup {"Mixin"} \cup FormatterCls    \* classes a method can be copied onto
 
 OpOf(v) == CASE v = "Validator" -> "validate" [] v = "Generator" -> "generate"
              [] v = "Representor" -> "represent" [] v = "Substitutor" -> "substitute" [] OTHER -> "user"
@@ -56,6 +59,9 @@ VisitName(c) == IF c = "IntSchema" THEN "visit_int" ELSE "visit_str"
 (***************************************************************************)
 Names == {"int", "x", "alias"}
 Methods == {"visit_x", "visit_int", "_private", "__dunder__", "attr"}
+\* what a formatter plug-in may define: a new public method, a public method the library has
+\* (format_type_error), a private helper the library has (_format_path)
+FormatterMethods == {"format_new", "format_type_error", "_format_path"}
 
 InitReg == [facade |-> [n \in Names |-> CASE n = "int" -> "IntSchema" [] n = "alias" -> "method" [] OTHER -> "absent"],
             own |-> [h \in Holders |-> {}]]
@@ -98,8 +104,14 @@ DispatchOut(reg, c, v) ==
 RegisterAct(n, c) == [a |-> "register", name |-> n, cls |-> c, bases |-> <<>>, flag |-> "", meth |-> ""]
 ExtendAct(bases, flag, m) == [a |-> "extend", name |-> "", cls |-> "", bases |-> bases, flag |-> flag, meth |-> m]
 
-\* callable and not starting with two underscores
-Copied(m) == m \in {"visit_x", "visit_int", "_private"}
+\* callable and not starting with two underscores (visitors) / with one underscore (formatters)
+Copied(m) == m \in {"visit_x", "visit_int", "_private", "format_new", "format_type_error"}
+
+\* how the default formatter renders a type error at a nested path
+RenderOut(reg) ==
+  IF "format_type_error" \in reg.own["Formatter"] THEN "ext:format_type_error"
+  ELSE IF "_format_path" \in reg.own["Formatter"] THEN "ext:_format_path"     \* unreachable: never copied
+  ELSE "default"
 
 Step(reg, act) ==
   IF act.a = "register"
@@ -129,6 +141,8 @@ Outs(acts) == [j \in DOMAIN acts |-> Step(Run(InitReg, SubSeq(acts, 1, j - 1)), 
 BaseLists == {<<v>> : v \in {"Validator", "UV", "UV2"}} \cup {<<"Mixin", v>> : v \in {"Validator", "UV2"}}
 ExtendActs == {ExtendAct(b, "true", m) : b \in BaseLists, m \in Methods}
               \cup {ExtendAct(b, f, "visit_x") : b \in BaseLists, f \in {"one", "absent"}}
+              \cup {ExtendAct(<<"Formatter">>, "true", m) : m \in FormatterMethods}
+              \cup {ExtendAct(<<"Formatter">>, "absent", "format_type_error")}
 RegisterActs == {RegisterAct(n, c) : n \in Names, c \in AllCls}
 Acts == ExtendActs \cup RegisterActs
 
